@@ -55,6 +55,15 @@ change exposed a genuine defect (grouped ORDER BY is not a total order; unsorted
 remark of the C15 agent another (an integer column compared with `11.6` reads the literal as 0: F47); the C20 extension
 exposed an error in the check's own oracle before it was ever committed (DESIGN 7).
 
+Re-judging on the tree as repaired (after some ninety `fix:` commits; `python3-vt -m fsv.seedall`, results in
+`sensitivity/seedall-*.json`): 42 of the 60 patches still applied and all but two of them were caught by the
+search-only quick checks; the two that "held" (`C02-v2-shared-operand-map`, `C05-v2-date-before-numeric-key`) are
+neutralised by later repairs (7306c0f keeps literals out of the per-row map; 9b74d0e types an ORDER BY key by its whole
+expression) - with them applied the property really holds now. The 16 patches that no longer applied were ported by hand
+to the current code (same fault, same place or its nearest successor; originals kept beside them) and judged again: 15
+caught as the checks stood, one missed (`C19-member-error-aborts-directory`, see its row) and caught after C19's
+corruption enumeration was extended.
+
 Over the three rounds: 60 changes, 33 caught by the checks as they stood at the time, 27 missed and all 27 caught after
 a generator or oracle extension; no check was loosened, and every extension was re-run on the unchanged tree.
 """
@@ -68,7 +77,7 @@ def main():
             continue
         m = json.load(open(mf))
         esc = lambda t: t.replace("|", "\\|").replace("\n", " ")
-        rows.append("| `%s` | %s | %s | %s |" % (os.path.basename(d), m["property"], esc(m["needs_to_manifest"]), esc(m["detection"])))
+        rows.append("| `%s` | %s | %s | %s |" % (os.path.basename(d), m["property"], esc(m["needs_to_manifest"]), esc(m["detection"] + ((" **Later:** " + m["ported"]) if m.get("ported") else "") + ((" **Later:** " + m["neutralised"]) if m.get("neutralised") else ""))))
     text = INTRO + "\n".join(rows) + "\n" + SUMMARY
     p = os.path.join(VERIF, "DESIGN.md")
     s = open(p).read()
